@@ -14,7 +14,7 @@ import (
 func init() {
 	register("C07",
 		"that DAYS_OF_MONTH and the leap rules are the right calendar beyond the literal table; which lunar (year, month, day) triples are images of civil days (numeric in the month table).",
-		r07_1, r07_2, r07_3, r07_4, r04_2, r17_1, r17_5, r17_6, r06_1, r04_9)
+		r07_1, r07_2, r07_3, r07_4, r04_2, r17_1, r17_5, r17_6, r06_1, r04_9, r04_8)
 }
 
 func r07_1(c *Ctx, r *Report) {
